@@ -182,6 +182,11 @@ def gen_chain(rng, hops=None, with_explicit_host=None, add_at_hops=True, malform
     if method in BODY_METHODS and rng.random() < 0.6:
         body_len = rng.choice([0, 3, 10])
         orig_headers.append((b"content-length", str(body_len).encode()))
+    # Expect: 100-continue on the original request (inherited by every hop like any other original header): a hop that sends a body
+    # passes through Await100, where the caller gives up waiting, is told to go on, or is refused by the redirect itself
+    expect = rng.random() < 0.15
+    if expect:
+        orig_headers.append((b"expect", b"100-continue"))
     rng.shuffle(orig_headers)
     orig_headers = group_headers(orig_headers)
     policy = rng.choice(["never", "same_host", "same_host"])
@@ -225,8 +230,19 @@ def gen_chain(rng, hops=None, with_explicit_host=None, add_at_hops=True, malform
         if h == hops:
             break
         ops.append("proceed")
+        refused_in_await = False
+        if expect and (despite_here or cur_method in BODY_METHODS):
+            how = rng.choice(["giveup", "continue", "refused"])
+            if how == "continue":
+                ops.append("raw_try100 %s" % hx(b"HTTP/1.1 100 Continue\r\n\r\n"))
+            elif how == "refused":
+                refused_in_await = True       # the redirect response (built below) is offered while awaiting: a refusal, the body is not sent
+            if not refused_in_await:
+                ops.append("proceed")
         # --- send the body if one is due
-        if despite_here:
+        if refused_in_await:
+            pass
+        elif despite_here:
             ops += ["write_body %s #100" % hx(b"hi"), "write_body x #100", "proceed"]      # default framing: chunked
         elif cur_method in BODY_METHODS:
             if h == 0 and body_len is not None:
@@ -259,6 +275,8 @@ def gen_chain(rng, hops=None, with_explicit_host=None, add_at_hops=True, malform
         if rng.random() < 0.2:
             fields.insert(0, (b"Set-Cookie", b"s=1"))
         resp = render_response_head("1.1", status, b"Moved", fields)
+        if refused_in_await:
+            ops += ["raw_try100 %s" % hx(resp), "proceed"]
         if noloc or rng.random() < 0.12:
             # an interim 1xx response first (with fields of its own, among them a Location): the caller asks again on the same flow
             ops += ["raw_try_response %s" % hx(rng.choice(INTERIM_HEADS[:3]))]
@@ -283,7 +301,7 @@ def gen_chain(rng, hops=None, with_explicit_host=None, add_at_hops=True, malform
         if status not in (307, 308) and cur_method not in ("GET", "HEAD"):
             cur_method = "GET"
     meta = {"scheme": scheme, "host": host, "port": port, "policy": policy, "orig_headers": [[k.hex(), v.hex()] for k, v in orig_headers],
-            "explicit_host": explicit_host, "hops": hop_meta, "stopped": stopped, "method": method}
+            "explicit_host": explicit_host, "hops": hop_meta, "stopped": stopped, "method": method, "expect": expect}
     return ops, meta
 
 
